@@ -66,6 +66,9 @@ def main():
         bins = " | ".join(f"binary({os.path.splitext(os.path.basename(p))[0]})" for _, p in placed)
         demo_cmd = f"cargo nextest run --workspace --offline --no-fail-fast -E '{bins}'"
     sh("git checkout -- . && git clean -fdq -e target", wt)
+    # confirm against the tree the checks run on: /repo's current HEAD
+    head = sh("git rev-parse HEAD", "/repo")[1].strip()
+    sh(f"git checkout -q --detach {head}", wt)
     res = {"property": pid, "n": n, "demo_cmd": demo_cmd, "worktree_head": sh("git rev-parse --short HEAD", wt)[1].strip(),
            "repo_head": sh("git rev-parse --short HEAD", "/repo")[1].strip()}
     for d, p in placed:
